@@ -6,6 +6,9 @@ import json
 BASELINE_OFF = "cd /repo && go test -vet=off -count=1 -timeout 25m ./..."
 
 CHECKS = {
+ "C01": dict(level="model_checking", ref="5 C01", tech="source-rewriting of every range over a Go map (go/packages + go/types, applied with go build -overlay) so that a deviation-bounded DFS enumerates iteration orders and fetch completion orders on the real daemon; one-distinct-ledger invariant",
+   text="rangeperm rewrites every `range` over a map in node, node/pegnet, node/conversions and fat/fat2 of the current tree (12 sites today) to iterate in an order chosen by the explorer; the fake Factom node imposes the completion order of concurrent entry fetches. Scenarios with exact ties (2-4 equal stakers below/above the cap, equal PEG requests below/above the bank as separate entries and in one batch, 27 identical OPR and SPR records, 3-4 concurrently fetched entries) are executed for every choice vector with at most 2 (thorough 3) deviations from the sorted order (all n! orders at maps with <= 4 keys; sorted/reversed/rotated/swapped at larger maps, as the single deviation): about 13,800 executions quick. Invariant: exactly one canonical ledger dump per scenario.",
+   note="The grader libraries are not rewritten (they define grading). Sort instability is covered because Go's sort is a function of its input order. Sites the transformer cannot rewrite are listed in the evidence."),
  "C06": dict(level="model_checking", ref="5 C06", tech="explicit-state exploration of duplicate placements on the real daemon, differential oracle",
    text="Explicit-state exploration on the implementation itself: every placement of 1-2 (thorough: 3) extra copies of an entry over a 4 (5) block window, every graded/ungraded pattern, 4 entry kinds, 3 eras; each chain is replayed by the real DBlockSync and its ledger compared with the chain holding only first occurrences. States = distinct per-height ledger hashes, transitions = real block applications.",
    note="Trusts SQLite, the grader library and the fake Factom node; bounded to the stated window, copies and eras."),
